@@ -2,11 +2,13 @@
    schedule.  Statements only; proofs in Proofs/C10Proof.v, C0708Proof.v.
    PARTIAL: (e) "an individually absent resource contributes nothing" is proved
    in the form "a resource in state ABSENCE contributes 0 and costs 0"; that
-   the state is ABSENCE exactly at the listed steps, and the deletion clause
-   (f), are searched by the oracle (and (f) has the recorded FIFO finding). *)
+   the state is ABSENCE exactly at the listed steps is searched by the oracle.
+   The deletion clause (f) is proved for the task priority rules that do not
+   read PERT values (2, 3, 5, 6, 7, 8) with the auto-task flag off; for the
+   other rules it is searched (rule 4, FIFO, has the recorded finding). *)
 From Coq Require Import List ZArith QArith Bool Arith.
-From PV Require Import Model.Types Model.Sim Model.Example Proofs.Base Proofs.RunLemmas Proofs.C01Proof
-  Proofs.C02Proof Proofs.LogsProof Proofs.C0708Proof Proofs.C10Proof.
+From PV Require Import Model.Types Model.Sim Model.LogEdit Model.Example Proofs.Base Proofs.RunLemmas Proofs.C01Proof
+  Proofs.C02Proof Proofs.LogsProof Proofs.C0708Proof Proofs.C10Proof Proofs.C13Proof Proofs.KeyCong Proofs.C10Del Proofs.C10Final.
 Import ListNotations.
 Open Scope nat_scope.
 
@@ -74,3 +76,46 @@ Proof.
   destruct (asg (wd s w)); cbn; split; discriminate.
 Qed.
 Print Assumptions C10_refresh_sets_absence.
+
+(* (f) deleting the project-wide absence steps from the result gives the
+   result of simulating without absence: same time, status, live state
+   (task state / remaining work / allocations, worker and facility records,
+   component records, workplace contents) and the same logs and cost lists at
+   every level; only the PERT scratch values (est/eft/lst/lft, critical path
+   length) are not compared.  Hypotheses: the task priority rule does not read
+   PERT values, perform_auto_task_while_absence_time is off, no worker or
+   facility has an absence list of its own, the component trees are disjoint,
+   the run starts from initialize(state_info=True, log_info=True) and ends
+   with every task FINISHED.  (Component-bound automatic tasks need no
+   exclusion when the flag is off.) *)
+Theorem C10_deletion_gives_the_absence_free_run : forall c o,
+  pert_free (o_rule o) -> o_auto_abs o = false ->
+  (forall w, w_abs c w = []) -> (forall f, f_abs c f = []) -> Forest c ->
+  o_init_state o = true -> o_init_log o = true ->
+  forall s0, status (fst (simulate c o s0)) = StSuccess ->
+  same_result c (snd (remove_absence c (o_abs o, fst (simulate c o s0)))) (fst (simulate c (no_abs o) s0)).
+Proof. exact deletion_gives_the_absence_free_run. Qed.
+Print Assumptions C10_deletion_gives_the_absence_free_run.
+
+(* the step relation behind it: an absence step leaves the key of the state
+   unchanged up to the worker / facility states; a working step of the run with
+   absence and a step of the run without compute key-equal states *)
+Theorem C10_absence_step_is_a_stutter : forall c o u, o_auto_abs o = false -> mem (time u) (o_abs o) = true ->
+  KEg c false (step_perform c o (step_allocate c o u)) u.
+Proof. intros c o u H1 H2. exact (absence_half c o H1 u H2). Qed.
+Print Assumptions C10_absence_step_is_a_stutter.
+
+(* non-vacuity: the two-component assembly project with rule 2 and absence at
+   steps 0, 2 and 40 succeeds two steps later than without absence *)
+Definition ex_del_opts : opts := mkOpts 2%Z [0; 2; 40] false true true 50 [0; 1].
+Example C10_deletion_example :
+  pert_free (o_rule ex_del_opts) /\ (forall w, w_abs ex_pl_cfg w = []) /\ (forall f, f_abs ex_pl_cfg f = [])
+  /\ Forest ex_pl_cfg
+  /\ status (fst (simulate ex_pl_cfg ex_del_opts (blank ex_pl_cfg))) = StSuccess
+  /\ time (fst (simulate ex_pl_cfg ex_del_opts (blank ex_pl_cfg))) = 2 + time (fst (simulate ex_pl_cfg (no_abs ex_del_opts) (blank ex_pl_cfg)))
+  /\ l_st (tl (fst (simulate ex_pl_cfg ex_del_opts (blank ex_pl_cfg))) 0) = [TReady; TReady; TReady; TWorking; TWorking].
+Proof.
+  split; [left; reflexivity|]. split; [intros w; reflexivity|]. split; [intros f; reflexivity|].
+  split; [|vm_compute; repeat split].
+  intros k. destruct k as [|[|k]]; vm_compute; repeat constructor; cbn; intuition discriminate.
+Qed.
